@@ -263,7 +263,7 @@ theorem removeTrigger_inv {cfg : Cfg} {w w' : World} (i : Inv cfg w) {u : Uid} {
     | some p =>
       obtain ⟨h1, d⟩ := p
       simp only [hr] at e
-      cases hl : relink d ((w.trigsOf u).eraseIdx k) h1 with
+      cases hl : relink (d ++ [(((k : Nat) : Int), (-1 : Int))]) ((w.trigsOf u).eraseIdx k) h1 with
       | none => simp [hl] at e
       | some h2 =>
         simp only [hl, Except.ok.injEq, Prod.mk.injEq] at e
